@@ -48,3 +48,39 @@ Definition wrapper_io_run (wr : wrapper) (fd_child : Z) (sent records : list (li
   | (_, evf, _), (Fuel, evc, _) => (StFuel, evf, evc)
   | (_, evf, _), (_, evc, _) => (Signaled SIGABRT, evf, evc)
   end.
+
+(* ------------------------------------------------------------------ *)
+(* preprocess::Launch, parent side: after fork the parent reads the close-on-exec status pipe:
+     while ((count = read(status_in, &err, sizeof(errno))) == -1) if (errno != EAGAIN && errno != EINTR) break;
+     count == -1 -> ErrnoException;  count != 0 -> "child's execvp failed";  count == 0 -> the exec succeeded
+   (an empty command line is rejected before forking when launch_checks_command) *)
+Fixpoint launch_wait (fuel : nat) (fd : Z) (orc : list outcome) : res unit * list event * list outcome :=
+  match fuel with
+  | O => (Fuel, [], orc)
+  | S f =>
+    match sys OpRead fd 4 [] orc with
+    | (Ok n _, ev, orc') => if n =? 0 then (Val tt, ev, orc') else (Exn, ev, orc')
+    | (Err e, ev, orc') =>
+      if zmem e launch_retry_errnos
+      then match launch_wait f fd orc' with (r, ev', orc'') => (r, ev ++ ev', orc'') end
+      else (Exn, ev, orc')
+    end
+  end.
+
+Definition Launch (command_words : nat) (fd : Z) : M unit := fun orc =>
+  if launch_checks_command && (command_words =? 0)%nat then (Exn, [], orc)
+  else launch_wait (S (length orc)) fd orc.
+
+(* a wrapper's main: Launch, then the two threads; a failed Launch is an exception leaving main *)
+Definition launch_status (command_words : nat) (fd : Z) (orc : list outcome) (after : status) : status * list event :=
+  match Launch command_words fd orc with
+  | (Val _, ev, _) => (after, ev)
+  | (r, ev, _) => (status_of (cast r), ev)
+  end.
+
+(* what the status read said last: the child reported nothing (exec succeeded) *)
+Definition launch_ok (evs : list event) : bool :=
+  match rev evs with
+  | e :: _ => match ev_out e with Ok n _ => n =? 0 | Err _ => false end
+  | [] => false
+  end.
